@@ -39,6 +39,11 @@ impl SerializeErrorFlags {
     fn contains(&self, other: Self) -> bool {
         (self.0 & other.0) == other.0
     }
+
+    #[cfg(googlefonts_fontations_verif)]
+    pub(crate) fn bits(&self) -> u16 {
+        self.0
+    }
 }
 
 impl Default for SerializeErrorFlags {
